@@ -8,10 +8,14 @@ from lib import gpgen
 from py2v import gen
 
 PROP = "C04"
-PROPS_FILES = ["Props/C04_kernels.v", "Props/C04_acq.v", "Props/C04_gp.v", "Props/C04_poly.v", "Props/C04_handir.v", "Props/C04_acq_gauss.v"]
+PROPS_FILES = ["Props/C04_kernels.v", "Props/C04_acq.v", "Props/C04_gp.v", "Props/C04_poly.v", "Props/C04_handir.v", "Props/C04_acq_gauss.v", "Props/C04_loglik.v"]
 ASSUMPTIONS = [
   "real arithmetic (Coq R, Coquelicot is_derive); rounding outside the model",
-  "log marginal likelihood gradient is PARTIAL: Jacobi's formula d log det K = tr(K^-1 dK) and d(r' K^-1 r) = -(a' dK a) are hypotheses (no determinant calculus over R available)",
+  "log marginal likelihood gradient is proved IN FULL (Props/C04_loglik.v): Coq's R is given the MathComp realFieldType structure (Lib/RStruct.v), the derivative of the determinant, Jacobi's formula "
+  "d ln det K = tr(K^-1 dK) and d(K^-1) = -K^-1 dK K^-1 are proved for matrices of differentiable real functions (Lib/RMxDeriv.v), the envelope identity P' a = 0 is the C02 lemma instantiated at R; the theorem "
+  "is stated on the regenerated value (GenLogLik / GenGP: noise, nugget, zero mean) and the regenerated gradient; hypotheses: the kernel-matrix entries are differentiable in the hyperparameter with the tensor slice as "
+  "derivative (per-kernel: C04_kernels), the Cholesky contract (L L' = K, lower triangular, positive diagonal) near theta, P' K^-1 P invertible; the older C04_loglik_grad_partial stays (superseded)",
+  "axioms of the likelihood theorems: the four standard-library real-number / classical axioms plus ClassicalEpsilon.constructive_indefinite_description (standard library; needed for the choiceType structure on R)",
   "EI gradient: the clamp max(0, .) is never active (z Phi(z) + pdf(z) > 0 for all z, proved from the Gaussian tail in Lib/Gauss.v / Proofs/AcqGauss.v), so the generated gradient is the derivative unconditionally (Props/C04_acq_gauss.v)",
   "logistic success probability: gradient proved below the exponent cap (kappa (mean - threshold) < 40)",
   "the product-model gradient and the likelihood-gradient loop, written by hand in the first rounds, are now also TRANSLATED from the source loops (range loops, boolean masks, per-element stores) and the hand-written forms are proved equal to the translated ones (Props/C04_handir.v)",
@@ -21,10 +25,10 @@ TRUSTED = ["tools/py2v translator (dual-rendering self-check on every run; the t
 LEVEL_TEXT = ("Coquelicot is_derive theorems stated on the value/gradient pairs regenerated from the source on every run: kernels w.r.t. inputs for all "
               "point pairs (coincident points by a squeeze argument) and w.r.t. every hyperparameter, multitask product rule, GP mean and variance "
               "(symmetric K^-1, translation invariance), EI, augmented penalty, product rule for penalised EI, logistic / CDF / product success "
-              "probabilities (n-factor product rule by induction), cost-scaled multitask quotient rule, Parzen ratio, log-likelihood (partial) in linear "
+              "probabilities (n-factor product rule by induction), cost-scaled multitask quotient rule, Parzen ratio, log-likelihood (in full: determinant derivative, Jacobi's formula, derivative of the inverse, GLS envelope step) in linear "
               "and log parameterisation; joint entry points are projections of the same terms; Richardson finite-difference search on the running code")
-LEVEL_NOTE = ("likelihood gradient partial (Jacobi assumed); the EI clamp is proved inactive, the logistic cap as stated; translator trusted after self-check; axioms: standard-library "
-              "real-number axioms (sig_not_dec, sig_forall_dec, functional_extensionality_dep, classic)")
+LEVEL_NOTE = ("likelihood gradient proved in full (Jacobi's formula and the derivative of the inverse proved over real matrices); the EI clamp is proved inactive, the logistic cap as stated; translator trusted after self-check; axioms: standard-library "
+              "real-number axioms (sig_not_dec, sig_forall_dec, functional_extensionality_dep, classic; constructive_indefinite_description for the matrix theorems over R)")
 TECHNIQUE = "Coquelicot derivative proofs on value/gradient pairs regenerated from source (translator) + Richardson finite-difference search"
 DESIGN_REF = "DESIGN.md section 7, C04"
 
